@@ -224,7 +224,7 @@ def execute(case):
             handles.append(obj)
         kwargs = {}
         if case["solver"] in ("euler", "runge-kutta"):
-            kwargs["adaptive"] = False
+            kwargs["adaptive"] = bool(case.get("adaptive", False))
         final, info = eq.solve(initial, t_range=t_range, dt=case["dt"], tracker=trackers,
                                backend=case["backend"], solver=case["solver"], ret_info=True, **kwargs)
     except Exception as exc:  # malformed stream: the error class is the expected outcome
@@ -237,6 +237,7 @@ def execute(case):
         t_types=sorted({e[3] for e in rec["trace"]}),
         finalized=rec["finalized"], raised=rec["raised"],
         t_final=float(info["controller"]["t_final"]),
+        dt_final=float(info["solver"].get("dt") or case["dt"]),
         steps=int(info["solver"]["steps"]),
         state=float(data.flat[0]),
         uniform=bool(np.all(data == data.flat[0])),
@@ -434,10 +435,18 @@ def resolve(ctx, pending, answers, batch2):
             ctx.disagree("correspondence", case, f"model error: {val}", None)
             continue
         d = compare(case, real, val, case["numbers"], exact_state=case["solver"] == "euler")
-        if d is not None and case["numbers"] == "F" and case.get("jit"):
-            d = compare(case, real, val, "F", close_times=True)
+        if case["numbers"] == "F" and case.get("jit"):
+            # JIT-compiled steppers may fuse `t_start + i*dt` / `state + dt*rate` into one rounding (LLVM fma
+            # contraction): not the IEEE operations of the source, so the Float model is not a bit-exact
+            # reference here.  Decimal numbers under JIT are judged by the monitors; the comparison with the
+            # Float model is reported only (dyadic numbers under JIT are compared exactly, fma or not).
             if d is None:
-                ctx.hist("numba-J", "differs from the Float model in the last bits (fused multiply-add)")
+                ctx.hist("numba-J decimal vs Float model", "bit-identical")
+            elif compare(case, real, val, "F", close_times=True) is None:
+                ctx.hist("numba-J decimal vs Float model", "same trace, last bits differ (fused multiply-add)")
+            else:
+                ctx.hist("numba-J decimal vs Float model", "parted at a rounding tie (fused multiply-add)")
+            d = None
         if d is not None:
             geo = [i for i, tr in enumerate(case["trackers"]) if tr["sched"]["kind"] == "geometric"]
             if geo and case["numbers"] == "Q":
@@ -680,7 +689,10 @@ def monitor_exact(case, real, strict_exact=False):
     which is what the property text says and what fails when another tracker is due up to dt/2 earlier)"""
     bad = []
     dt, t0, t1 = case["dt"], case["t_start"], case["t_end"]
-    rt = 1e-12 * max(abs(t0), abs(t1), dt) if case.get("round_off") else 0.0
+    # adaptive steppers: the last step of a segment is `max(t_end - t, dt_min)` with dt_min = 1e-10, so the target
+    # is reached to round-off or overshot by up to dt_min; their tolerances follow the current adaptive dt
+    rt = 1.5e-10 + 1e-12 * max(abs(t0), abs(t1), dt) if case.get("round_off") else 0.0
+    dt_eff = max(dt, real.get("dt_final") or dt) if case.get("round_off") else dt
     n_tr = len(case["trackers"])
     per = [[] for _ in range(n_tr)]
     action = {t0, t1}
@@ -714,7 +726,7 @@ def monitor_exact(case, real, strict_exact=False):
                     bad.append((f"call {k} of constant tracker {i} is at most dt/2 early", t, a))
                     break
                 exact_required = strict_exact or (n_tr == 1 and tau0 == t0)
-                sliver = t == t1 and t1 < a < t1 + EPS * dt
+                sliver = abs(t - t1) <= rt and t1 < a < t1 + EPS * dt_eff + rt
                 if exact_required and abs(t - a) > rt and not sliver:
                     bad.append((f"call {k} of constant tracker {i} exactly at its scheduled time (adaptive stepper)", t, a))
                     break
